@@ -48,10 +48,17 @@ FIXED = [
     (['C07'], 'ext16/ext32 timestamp', 'type of MsgPack extension in ext16/ext32', 'timestamp encoded as ext16/ext32 (c8 00 0c ff ...) not recognised by the memory reader'),
     (['C20', 'C02', 'C07'], 'terminate:BitSerializer::ParsingException', 'exceptions thrown from destructors', 'one byte MsgPack document 0x81 into a class -> std::terminate from ~CMsgPackReadObjectScope; ragged CSV rows -> terminate from ~CCsvWriteObjectScope'),
     (['C03', 'C10'], 'msgpack stream reposition', 'could not be repositioned', 'MsgPack stream larger than 256 bytes with members requested out of order: seekg failed (eofbit+failbit) and the result was ignored, garbage parsed'),
+    (['C06'], 'int-not-compact/nonneg-in-signed-family', 'most compact format for positive values of signed types', 'int16_t 173 written as int16 (D1 00 AD) instead of uint8 (CC AD); same for 32768..65535 and 2^31..2^32-1'),
     (['C13'], 'detect one-character text', 'consists of one UTF-16/UTF-32 character', 'BOM-less UTF-32 text of one character detected as UTF-16 (i + 4 < size)'),
 ]
 
 KNOWN = [
+    ('C07', 'illformed-accepted/timestamp-nanoseconds-above-999999999',
+     'timestamp 64/96 whose nanoseconds field exceeds 999999999 (forbidden by the specification, e.g. D7 FF FF FF FF FC 00 00 00 05) is accepted and the excess is carried into seconds instead of raising a parsing error; rejecting it breaks upstream test MsgPackArchive.SerializeClassWithTimestampAsKey which round-trips CBinTimestamp with arbitrary Nanoseconds'),
+    ('C07', 'timestamp96/seconds-before-nanoseconds',
+     'a Timestamp 96 produced by a conformant encoder (C7 0C FF + nanoseconds(32) + seconds(64)) is loaded as a different instant or rejected with Overflow, the readers expect seconds(64) + nanoseconds(32) (msgpack_readers.cpp ReadValue(CBinTimestamp&), see the C06 entry)'),
+    ('C06', 'timestamp96/seconds-before-nanoseconds',
+     'Timestamp 96 (seconds outside 0..2^34-1, e.g. any time before 1970) is written as C7 0C FF + seconds(64) + nanoseconds(32); the MessagePack specification defines nanoseconds(32) + seconds(64), so other decoders read a different instant or reject it (msgpack_writers.cpp WriteValue(CBinTimestamp), mirrored by the readers; the byte order is asserted by upstream test MsgPackWriterTest.ShouldWriteTimestamp96 and changing it would make existing data unreadable)'),
     ('C15', 'dur/component-not-representable-but-total-is',
      'ISO duration whose designators are individually not whole multiples of a coarse target unit is rejected with out_of_range although the total is representable, e.g. Convert::To<duration<int64,ratio<86400>>>("PT60H3600M") (= 5 days); each designator is converted to the target type on its own (convert_chrono.h parseNextPart/transformToDuration)'),
     ('C01', 'csv/zero-rows/empty-document-rejected',
